@@ -378,7 +378,7 @@ def judge(ctx, root, argv, sources, references, tree, schema, use_binary):
 
 
 def plan(tier, seed):
-    n = 400 if tier == "quick" else 8000
+    n = 3000 if tier == "quick" else 30000
     return [("trees", n // 16, i) for i in range(16)]
 
 
